@@ -400,6 +400,77 @@ func (ch c04) Run(c *core.Ctx) {
 	}
 	// ---- many clients starting up at the same moment (a reconnect storm), some of them half-way: the
 	// process survives and a fresh connection is served afterwards ----
+	// a handler that keeps the CopyReader it was given (an audit routine drains it later) and reads it again
+	// after its connection has ended: that read fails or ends - the process lives, and the connection that is
+	// being served at that moment gets every one of its queries answered
+	if c.Batch == 5%nb && c.Begin(880000000) {
+		var kmu sync.Mutex
+		var kept []*wire.CopyReader
+		kparse := func(ctx context.Context, query string) (wire.PreparedStatements, error) {
+			cols := wire.Columns{{Name: "c", Oid: oid.T_text, Width: -1}}
+			return wire.Prepared(wire.NewStatement(func(ctx context.Context, w wire.DataWriter, _ []wire.Parameter) error {
+				if query != "copy" {
+					w.Row([]any{"served"})
+					return w.Complete("SELECT 1")
+				}
+				cr, err := w.CopyIn(wire.TextFormat)
+				if err != nil {
+					return err
+				}
+				kmu.Lock()
+				kept = append(kept, cr)
+				kmu.Unlock()
+				for cr.Read() == nil {
+				}
+				return w.Complete("COPY 1")
+			}, wire.WithColumns(cols))), nil
+		}
+		kenv := hs.Start(kparse, wire.MessageBufferSize(c04L))
+		for round := 0; round < 4 && c.NViol() == 0; round++ {
+			a := hs.NewClient(kenv.Dial(nil))
+			a.C.Send(append(pg.Startup([][2]string{{"user", "keeps"}}), pg.Query("copy")...))
+			a.C.Send(append(append(pg.CopyData([]byte("line\n")), pg.CopyDone()...), pg.Terminate()...))
+			a.C.CloseWrite()
+			if !a.C.WaitClosed() {
+				c.Inconclusive("C04 kept-reader part: connection did not end")
+				break
+			}
+			b := hs.NewClient(kenv.Dial(nil))
+			if err := b.StartupOK("next"); err != nil {
+				c.Violate("probe", "a connection started after another one ended is not served", err.Error(), nil)
+				break
+			}
+			kmu.Lock()
+			readers := append([]*wire.CopyReader(nil), kept...)
+			kmu.Unlock()
+			done := make(chan struct{})
+			go func() {
+				defer close(done)
+				for _, cr := range readers {
+					for i := 0; i < 3; i++ {
+						cr.Read()
+					}
+				}
+			}()
+			for q := 0; q < 5; q++ {
+				out, closed := b.Step(pg.Query(fmt.Sprintf("q%d", q)))
+				if b.Hung || closed || !strings.HasSuffix(replyKinds(out), "ZI") {
+					c.Violate("neighbour", "a connection is not served while a handler of an ended connection reads the CopyReader it kept", fmt.Sprintf("round %d query %d: reply %q closed=%v hung=%v", round, q, replyKinds(out), closed, b.Hung), nil)
+					b.Hung = false
+					break
+				}
+			}
+			select {
+			case <-done:
+			case <-time.After(20 * time.Second):
+				c.Violate("neighbour", "reading a CopyReader kept beyond its connection does not return", "", nil)
+			}
+			c.Count("copy_readers_read_after_their_connection_ended", int64(len(readers)))
+			c.Eval(fmt.Sprintf("kept reader %d", round), true)
+			b.Finish()
+		}
+		kenv.Stop()
+	}
 	if c.Batch == 3%nb && c.Begin(870000000) {
 		var wg sync.WaitGroup
 		for g := 0; g < 16; g++ {
